@@ -17,11 +17,11 @@ import (
 	"encoding/json"
 	"fmt"
 	"io"
-	"strings"
 	"math/rand"
 	"os"
 	"path/filepath"
 	"sort"
+	"strings"
 	"sync"
 	"sync/atomic"
 	"time"
@@ -43,6 +43,9 @@ nodes:
       type: message
       branches:
       - pattern: |
+          {"uid":"?u","d":"?d","only":"?only","relay":"?relay"}
+        target: bump
+      - pattern: |
           {"uid":"?u","d":"?d","only":"?only"}
         target: bump
       - pattern: |
@@ -56,9 +59,11 @@ nodes:
         bs.n = (bs.n || 0) + 1;
         bs.last = bs["?u"];
         if (bs["?d"] !== undefined && bs["?only"] === bs.self) { bs.q = 100 / bs["?d"]; }
+        if (bs["?relay"] !== undefined) { _.out({to: bs["?relay"], uid: bs["?u"] + "r"}); }
         delete bs["?u"];
         delete bs["?d"];
         delete bs["?only"];
+        delete bs["?relay"];
         return bs;
     branching:
       branches:
@@ -79,7 +84,7 @@ type c16last struct {
 }
 
 type c16env struct {
-	last c16last
+	last    c16last
 	s       *Service
 	ctx     context.Context
 	cancel  context.CancelFunc
@@ -260,7 +265,7 @@ func (e *c16env) applyViaListener(o c16op) (result string, err error) {
 			"state": map[string]interface{}{"node": "start", "bs": map[string]interface{}{"inc": float64(inc), "n": 0.0, "self": o.Id}}}}}})
 	case "rem":
 		line = js(map[string]interface{}{"cop": map[string]interface{}{"rem": map[string]interface{}{"id": o.Id}}})
-	case "to", "all", "poison":
+	case "to", "all", "poison", "poisonrelay":
 		uid := fmt.Sprintf("u%d", atomic.AddInt64(&e.uidN, 1))
 		msg := map[string]interface{}{"uid": uid}
 		switch o.Kind {
@@ -269,6 +274,11 @@ func (e *c16env) applyViaListener(o c16op) (result string, err error) {
 		case "poison":
 			msg["d"] = 0.0
 			msg["only"] = o.Id
+		case "poisonrelay":
+			msg["to"] = o.Id
+			msg["d"] = 0.0
+			msg["only"] = o.Id
+			msg["relay"] = map[string]string{"m1": "m2", "m2": "m3", "m3": "m1"}[o.Id]
 		}
 		line = js(map[string]interface{}{"cop": map[string]interface{}{"process": map[string]interface{}{"message": msg}}})
 	case "get":
@@ -277,10 +287,20 @@ func (e *c16env) applyViaListener(o c16op) (result string, err error) {
 		return "", fmt.Errorf("unknown op")
 	}
 	m, err := e.sess.request(line)
+	if o.Kind == "poisonrelay" {
+		e.settle()
+	}
 	if err != nil {
 		return o.Kind + ": " + err.Error(), err
 	}
 	return o.Kind + " answered " + fw.Short(m), nil
+}
+
+// settle waits for the asynchronous processing of emitted messages.  Other sequences run
+// in parallel, so the goroutine profile cannot tell whose processing it sees: wait a fixed
+// while, generous for one message to one counter machine.
+func (e *c16env) settle() {
+	time.Sleep(60 * time.Millisecond)
 }
 
 func (e *c16env) apply(o c16op) (result string, err error) {
@@ -370,6 +390,19 @@ func (e *c16env) apply(o c16op) (result string, err error) {
 			out += id + ":" + from + ">" + to + " "
 		}
 		return out, nil
+	case "poisonrelay":
+		// as "poison", addressed to o.Id only, whose action also emits a message to another
+		// machine: the request fails at the store, so nothing of it may take effect
+		uid := fmt.Sprintf("u%d", atomic.AddInt64(&e.uidN, 1))
+		e.last = c16last{kind: "poison"}
+		other := map[string]string{"m1": "m2", "m2": "m3", "m3": "m1"}[o.Id]
+		_, err = e.s.Process(e.ctx, map[string]interface{}{"uid": uid, "to": o.Id, "d": 0.0, "only": o.Id, "relay": other}, nil)
+		// what the request emitted (if anything) is processed asynchronously: let it settle
+		e.settle()
+		if err != nil {
+			return "poisonrelay: " + err.Error(), err
+		}
+		return "poisonrelay: no error", nil
 	case "poison":
 		// a request to every machine that leaves machine o.Id (only) with a state the
 		// store cannot serialise (q = 100/0): the write of the whole request fails
@@ -404,7 +437,9 @@ func genC16Seq(r *rand.Rand, n int) []c16op {
 			seq = append(seq, c16op{"all", ""})
 		default:
 			switch r.Intn(4) {
-			case 0, 1:
+			case 0:
+				seq = append(seq, c16op{"poisonrelay", id})
+			case 1:
 				seq = append(seq, c16op{"poison", id})
 			case 2:
 				seq = append(seq, c16op{[]string{"to-cancelled", "all-cancelled", "add-cancelled", "rem-cancelled"}[r.Intn(4)], id})
@@ -485,7 +520,7 @@ func c16SequentialMid(cfg fw.Config, rec *fw.Rec, seqIdx int, seq []c16op, fi, f
 		failing := k >= fi && k < fj
 		before := env.memory()
 		// a poisoned request fails at the store although the store is healthy
-		poisoned := o.Kind == "poison" && before[o.Id] != ""
+		poisoned := (o.Kind == "poison" || o.Kind == "poisonrelay") && before[o.Id] != ""
 		if midK == k {
 			atomic.StoreInt64(&c16WriteCalls, 0)
 			atomic.StoreInt64(&c16FailAtCall, int64(midC))
@@ -538,6 +573,9 @@ func c16SequentialMid(cfg fw.Config, rec *fw.Rec, seqIdx int, seq []c16op, fi, f
 			rec.Bucket("unserialisable_state_left_memory_unchanged")
 			if len(before) >= 2 {
 				rec.Bucket("unserialisable_state_in_multi_machine_request")
+			}
+			if o.Kind == "poisonrelay" {
+				rec.Bucket("failed_request_that_emitted_left_the_others_alone")
 			}
 		}
 		if failing {
@@ -813,8 +851,8 @@ func c16Concurrent(cfg fw.Config, rec *fw.Rec, idx int, interleavings map[string
 
 func init() {
 	verifRegistry["C16/mcrew"] = func(cfg fw.Config, rec *fw.Rec) {
-		rec.Rule = "sequential (every second sequence as JSON request lines through Service.Listener, the per-connection loop of the TCP / WebSocket services; the others as direct Service calls): operation sequences of length 2-8 over {add, rem, process-to, process-all, read-crew, retry-the-previous-request-verbatim, the same requests under an already cancelled context} on ids {m1,m2,m3}; for every 0 <= i < j <= n the bolt store is closed for operations i..j-1 (plus the fault-free run); after each operation with a healthy store memory must equal the store, an operation whose write failed must leave memory as it was, after recovery memory must equal the store; a 'poison' request to every machine leaves one machine with a state the store cannot serialise (100/0), so the request's write fails although the store is healthy: memory must stay as it was for every machine and equal the store; mid-operation faults: the hook counts an operation's store write calls and closes the database at the 1st/2nd/3rd call of that operation (the observed maximum of write calls per operation is reported); concurrent: 4-8 clients x 6-15 requests on 2-3 ids with every store write delayed 0-2 ms through the verifPoint hook: final memory == store, no two process results from one machine state, per-machine history linearizable (porcupine) w.r.t. a sequential service model; non-trivial = sequence run under a fault window / concurrent history; distinct by (sequence, window) / history"
-		rec.Required = []string{"healthy_op_memory_equals_store", "failed_write_left_memory_unchanged", "recovered_store_agrees", "concurrent_histories", "histories_linearizable_per_machine", "fault_windows", "requests_over_the_line_protocol", "request_under_cancelled_context_memory_equals_store", "unserialisable_state_left_memory_unchanged", "unserialisable_state_in_multi_machine_request", "mid_operation_fault_injected"}
+		rec.Rule = "sequential (every second sequence as JSON request lines through Service.Listener, the per-connection loop of the TCP / WebSocket services; the others as direct Service calls): operation sequences of length 2-8 over {add, rem, process-to, process-all, read-crew, retry-the-previous-request-verbatim, the same requests under an already cancelled context} on ids {m1,m2,m3}; for every 0 <= i < j <= n the bolt store is closed for operations i..j-1 (plus the fault-free run); after each operation with a healthy store memory must equal the store, an operation whose write failed must leave memory as it was, after recovery memory must equal the store; a 'poison' request to every machine leaves one machine with a state the store cannot serialise (100/0), so the request's write fails although the store is healthy: memory must stay as it was for every machine and equal the store - also when the failing machine's action emitted a message to another machine ('poisonrelay'); mid-operation faults: the hook counts an operation's store write calls and closes the database at the 1st/2nd/3rd call of that operation (the observed maximum of write calls per operation is reported); concurrent: 4-8 clients x 6-15 requests on 2-3 ids with every store write delayed 0-2 ms through the verifPoint hook: final memory == store, no two process results from one machine state, per-machine history linearizable (porcupine) w.r.t. a sequential service model; non-trivial = sequence run under a fault window / concurrent history; distinct by (sequence, window) / history"
+		rec.Required = []string{"healthy_op_memory_equals_store", "failed_write_left_memory_unchanged", "recovered_store_agrees", "concurrent_histories", "histories_linearizable_per_machine", "fault_windows", "requests_over_the_line_protocol", "request_under_cancelled_context_memory_equals_store", "unserialisable_state_left_memory_unchanged", "unserialisable_state_in_multi_machine_request", "failed_request_that_emitted_left_the_others_alone", "mid_operation_fault_injected"}
 		rec.Assume = []string{"store faults are injected by closing the bolt database (every write and read fails until it is reopened); commits do not fsync (NoSync) because durability is not monitored", "machines are counters with a unique incarnation tag, so every state of every incarnation is distinguishable", "porcupine timeout 60 s = inconclusive"}
 		// sequential fault enumeration
 		nseq := cfg.Pick(40, 800)
@@ -832,7 +870,10 @@ func init() {
 				seq = []c16op{{"add", "m1"}, {"to", "m1"}, {"again", ""}, {"rem", "m1"}, {"add", "m1"}, {"again", ""}, {"all", ""}, {"get", ""}}
 			}
 			if i == 1 {
-				seq = []c16op{{"add", "m1"}, {"add", "m2"}, {"add", "m3"}, {"poison", "m2"}, {"all", ""}, {"poison", "m1"}, {"get", ""}}
+				seq = []c16op{{"add", "m1"}, {"add", "m2"}, {"add", "m3"}, {"poison", "m2"}, {"all", ""}, {"poisonrelay", "m1"}, {"get", ""}, {"poisonrelay", "m3"}}
+			}
+			if i == 4 {
+				seq = []c16op{{"add", "m1"}, {"add", "m2"}, {"add", "m3"}, {"poisonrelay", "m1"}, {"all", ""}, {"poisonrelay", "m3"}, {"to", "m2"}, {"poisonrelay", "m2"}, {"get", ""}}
 			}
 			if i == 2 {
 				seq = []c16op{{"add", "m1"}, {"to-cancelled", "m1"}, {"to", "m1"}, {"add-cancelled", "m2"}, {"all-cancelled", ""}, {"rem-cancelled", "m1"}, {"all", ""}}
